@@ -10,7 +10,7 @@ spec = importlib.util.spec_from_loader("check", loader=None)
 src = open("check").read()
 mod = type(sys)("check"); mod.__file__ = "check"
 exec(compile(src.replace('if __name__ == "__main__":\n    main()', ''), "check", "exec"), mod.__dict__)
-for p in ("release", "bmi2", "debug"):
+for p in ("release", "bmi2", "debug", "bmi2dbg"):
     mod.build_harness(p)
 PY
 # pre-build the ThreadSanitizer std (-Zbuild-std) and Miri sysroot used by C20 so that the first C20 check is not dominated by them
